@@ -203,6 +203,23 @@ func c13Variants(rng *gen.Rng, i int) ([]c13Variant, [][]byte) {
 		vs[k].src = gen.RenderGlobal(g) + "\n" + gen.RenderCommand(c1) + "\n" + gen.RenderGlobal(g2) + "\n" + gen.RenderCommand(c1) + "\n" + gen.RenderCommand(c2)
 		vs[k].concat = []int{r1, r2, r3}
 	}
+	// ... and the same when one of the two definitions carries a PREDICATE and the other does not: a definition is what
+	// it says, nothing of the definition it replaces carries over
+	{
+		pr := gen.PredLib[rng.Intn(len(gen.PredLib))]
+		B2 := []gen.Node{gen.Loop{Min: 1, Max: 2, Form: "between", Body: gen.Class{Kind: "letter"}}}
+		withP := gen.Global{Name: "gx", Body: B2, Pred: &pr}
+		without := gen.Global{Name: "gx", Body: B2}
+		for oi, order := range [][2]gen.Global{{withP, without}, {without, withP}} {
+			tag := []string{"predicate-then-none", "none-then-predicate"}[oi]
+			r1 := add("redefinition:"+tag+":first-definition-command-1-alone", -1, []gen.Global{order[0]}, c1)
+			r2 := add("redefinition:"+tag+":second-definition-command-1-alone", -1, []gen.Global{order[1]}, c1)
+			r3 := add("redefinition:"+tag+":second-definition-command-2-alone", -1, []gen.Global{order[1]}, c2)
+			k := add("redefinition-between-commands:"+tag, -1, []gen.Global{order[0]}, c1, c1, c2)
+			vs[k].src = gen.RenderGlobal(order[0]) + "\n" + gen.RenderCommand(c1) + "\n" + gen.RenderGlobal(order[1]) + "\n" + gen.RenderCommand(c1) + "\n" + gen.RenderCommand(c2)
+			vs[k].concat = []int{r1, r2, r3}
+		}
+	}
 	// names that live INSIDE a stored pattern stay inside: (a) a stored pattern built on another stored pattern keeps
 	// the meaning that one had when it was defined, also when the inner name is defined again before the command;
 	// (b) an inline subroutine of the stored pattern's body does not occupy its name in the referencing command
@@ -317,7 +334,7 @@ func C13(r *drv.Run) {
 	if !quick(r) {
 		nbody, nhist = 20000, 2500
 	}
-	r.Rule = "(1) capture-free bodies B (with or, in, not in, loops, nested and recursive subroutines) in contexts prefix/suffix, inside a loop, inside an alternation: B in place == {B}=s (+0..2 calls) == set g to pattern B referenced 1..3 times, also referenced before AND inside a counted loop (exactly 2 / at least 2 / between 3 and 4), first mentioned inside a zero-count loop and then used, a stored pattern built on another one whose name is defined again before the command, an inline subroutine of the command named like one inside the stored pattern, every inline-subroutine variant again next to an unrelated stored pattern of the same name, an inline subroutine declared inside a loop and called after it, a stored pattern with a predicate used inside another stored pattern, stored patterns whose names differ only in letter case, a name defined again in terms of its own previous definition (== the two-name form == written out), a stored pattern whose body declares an inline subroutine of the stored pattern's own name, all also judged by the reference matcher; a self-referencing subroutine driven 700 (thorough: 4 100) levels deep by an anchored input, inline and as a stored pattern, and chains of 701 and 10 051 (thorough: also 4 101 and 16 501) inline subroutines each standing for the one before it; (2) a three-command source sharing one definition == concatenation of its commands compiled alone; a source that defines the name AGAIN with another body between its commands == concatenation of each command compiled alone with the definition in force where it stands; (3) recorded sequential histories of Compile/Run calls in random order over a pool of sources (including sources whose compilation fails in the parser, the regex sub-parser, the generator and the type checker) and texts, checked offline against the pure-function model: each call's result digest equals the digest the same call produced alone in a fresh worker process; (4) canonical bytecode digest (loop ids normalised) unchanged by runs and equal across recompilations. Non-trivial = variant pair with >= 1 match compared / history call whose isolated result has >= 1 match; distinct by (variant source, text) and (history, call index)."
+	r.Rule = "(1) capture-free bodies B (with or, in, not in, loops, nested and recursive subroutines) in contexts prefix/suffix, inside a loop, inside an alternation: B in place == {B}=s (+0..2 calls) == set g to pattern B referenced 1..3 times, also referenced before AND inside a counted loop (exactly 2 / at least 2 / between 3 and 4), first mentioned inside a zero-count loop and then used, a stored pattern built on another one whose name is defined again before the command, an inline subroutine of the command named like one inside the stored pattern, every inline-subroutine variant again next to an unrelated stored pattern of the same name, an inline subroutine declared inside a loop and called after it, a stored pattern with a predicate used inside another stored pattern, stored patterns whose names differ only in letter case, a name defined again in terms of its own previous definition (== the two-name form == written out), a stored pattern whose body declares an inline subroutine of the stored pattern's own name, all also judged by the reference matcher; a self-referencing subroutine driven 700 (thorough: 4 100) levels deep by an anchored input, inline and as a stored pattern, and chains of 701 and 10 051 (thorough: also 4 101 and 16 501) inline subroutines each standing for the one before it; (2) a three-command source sharing one definition == concatenation of its commands compiled alone; a source that defines the name AGAIN with another body between its commands (also with a predicate on only the first or only the second definition) == concatenation of each command compiled alone with the definition in force where it stands; (3) recorded sequential histories of Compile/Run calls in random order over a pool of sources (including sources whose compilation fails in the parser, the regex sub-parser, the generator and the type checker) and texts, checked offline against the pure-function model: each call's result digest equals the digest the same call produced alone in a fresh worker process; (4) canonical bytecode digest (loop ids normalised) unchanged by runs and equal across recompilations. Non-trivial = variant pair with >= 1 match compared / history call whose isolated result has >= 1 match; distinct by (variant source, text) and (history, call index)."
 	r.Assumptions = []string{
 		"bodies are capture-free, as the property says",
 		"a body that itself declares subroutines is not duplicated textually (two declarations of one name are rejected by design)",
